@@ -164,6 +164,10 @@ func vC15Routes(t *testing.T, out *vEmitter) {
 		// every kind of rule directly after every other kind (negated, method-qualified, bare regular expression)
 		{routes: []string{"GET!=^/api", "^/api/v1$", "POST=^/hook/", "!=^/private", "^/open$", "delete!=^/tmp/", "^/health$"}},
 		{routes: []string{"^/open$", "!=^/a", "^/x$"}},
+		// negated rules that constrain the END of the path: a query must not move a request across them
+		{routes: []string{"GET!=^/(admin|api(/.*)?)$"}},
+		{routes: []string{"!=/public$", "POST!=^/private$"}},
+		{routes: []string{"!=^/[a-z]*$"}},
 	}
 	methods := []string{"GET", "POST", "OPTIONS", "DELETE", "get", "PUT"}
 	paths := []string{"/", "/public", "/public/x", "/private", "/private/public", "/admin", "/admin/x", "/static/a.css", "/x/a.css", "/a.js",
